@@ -33,6 +33,12 @@ type (
 		into                  string
 		joinExpr              sqlparser.Expr
 		joinType              sqlparser.JoinType
+		// an ON expression that calls functions, runs subqueries or navigates
+		// backwards touches state of the query (memos, pending work, the CTE
+		// scope) that is not made for concurrent use: the goroutines of a
+		// PARALLEL join evaluate such an expression one at a time
+		serial  bool
+		evalMut sync.Mutex
 	}
 	HashedTable struct {
 		Rows map[string][]*any
@@ -109,7 +115,35 @@ func NewJoin(query *Query, left, right []any, leftIdent, rightIdent string, into
 	join.into = into
 	join.joinExpr = joinExpr
 	join.joinType = joinType
+	join.serial = joinType.IsParallel() && touchesQueryState(joinExpr)
 	return join
+}
+
+// touchesQueryState reports whether evaluating the expression may read or
+// write state of the query it belongs to
+func touchesQueryState(expr sqlparser.Expr) bool {
+	touches := false
+	_ = sqlparser.Walk(func(node sqlparser.SQLNode) (bool, error) {
+		switch node := node.(type) {
+		case *sqlparser.FuncExpr, *sqlparser.Subquery, *sqlparser.ExistsExpr:
+			touches = true
+		case *sqlparser.ColName:
+			if strings.Contains(sqlparser.String(node), "<-") {
+				touches = true
+			}
+		}
+		return !touches, nil
+	}, expr)
+	return touches
+}
+
+// on evaluates the ON expression for a pair of key groups
+func (j *Join) on(current Map) (any, error) {
+	if j.serial {
+		j.evalMut.Lock()
+		defer j.evalMut.Unlock()
+	}
+	return Expr(j.query, current, j.joinExpr, HardCodedValueExprOpt())
 }
 
 func (j *Join) Exec() ([]any, error) {
@@ -296,7 +330,7 @@ func (j *Join) JoinMatchFunc(lk string, lv *map[string]any, l, r *HashedTable) (
 		_current := make(Map)
 		maps.Copy(_current, *lv)
 		maps.Copy(_current, *rv)
-		rs, err := Expr(j.query, _current, j.joinExpr, HardCodedValueExprOpt())
+		rs, err := j.on(_current)
 		if err != nil {
 			return false, nil, err
 		}
